@@ -59,7 +59,7 @@ def run(ctx: Ctx) -> None:
                "eta": eta, "optimizer": opt_name, "constraint": "default" if default_c else None, "built": built,
                "unbatched": ci % 2 == 1, "tensor_lr": ci % 3 == 2, "bias": ci % 4 >= 2,
                "hyperparameters": ("keywords", "group-options", "group-all")[ci % 5 % 3] if ci % 5 < 3 else "keywords",
-               "small_gradient": ci % 7 == 3}
+               "small_gradient": ci % 7 == 3, "nested_in_blocks": bool(depth) and ci % 6 == 5}
         ctx.count(key, bucket=f"{kind}/{container or 'standalone'}")
 
         with_bias = ci % 4 >= 2      # a trainable bias next to the weight (its own update is taken out again below)
@@ -83,6 +83,12 @@ def run(ctx: Ctx) -> None:
                 if built in ("cloned-layers", "cloned+copied"):
                     layers = [copy.deepcopy(m) for m in layers]
                 rng.shuffle(layers)
+                nested = ci % 6 == 5
+                if nested:
+                    # "a layer inside a depth container": the container's elements are blocks holding the layers one level
+                    # (or two) further down
+                    layers = [torch.nn.Sequential(m) if j_ % 2 == 0 else torch.nn.Sequential(torch.nn.ModuleDict({"inner": m}))
+                              for j_, m in enumerate(layers)]
                 if container == "seq_args":
                     cont = uu.DepthSequential(*layers)
                 elif container == "seq_odict":
@@ -93,8 +99,8 @@ def run(ctx: Ctx) -> None:
                     cont = copy.deepcopy(cont)
                 elif built == "pickled-container":
                     cont = pickle.loads(pickle.dumps(cont))
-                layer = [m for m in cont if (m.weight.shape[0], m.weight.shape[1]) == (fo, fi) and
-                         type(m).__name__ == kind and (kind != "Conv1d" or m.weight.shape[2] == k)][0]
+                layer = [m for m in cont.modules() if type(m).__name__ == kind and (m.weight.shape[0], m.weight.shape[1]) == (fo, fi)
+                         and (kind != "Conv1d" or m.weight.shape[2] == k)][0]
             layer = layer.to(dt)
             unbatched = ci % 2 == 1          # "one example": with or without a leading batch dim of 1
             if kind == "Conv1d":
